@@ -114,7 +114,8 @@ Msg ==
 QuiesceOK ==
   /\ E.ev \in {"quiesce", "end"}
   /\ E.quiet
-  /\ (On("BUDGET") => (E.ev = "end" \/ Budget(E.state, cnt))) = TRUE
+  \* (an election is not a client operation in the sense of the bound: it has to end, which `quiet' says)
+  /\ (On("BUDGET") => (E.ev = "end" \/ curop.op = "force-election" \/ Budget(E.state, cnt))) = TRUE
   /\ (On("CONV") => Converged(E.state)) = TRUE
   /\ (On("PEND") => NothingPending(E.state)) = TRUE
   /\ (On("ELECT") => ElectionOutcome(E.state)) = TRUE
